@@ -33,4 +33,14 @@ def contract_items(pid, **extra):
     return items
 
 
-REGISTRY = {}
+def _registry():
+    from .registry_data import D, PROOF_TEXT, NOTE
+    import os
+    reg = {}
+    for pid, d in D.items():
+        if os.path.exists(os.path.join(os.path.dirname(__file__), pid + ".py")):
+            reg[pid] = dict(delivered=True, level_text=PROOF_TEXT + d["text"], level_note=NOTE, technique=d["technique"])
+    return reg
+
+
+REGISTRY = _registry()
